@@ -79,6 +79,7 @@ pub fn corr_c15(seed: u64, n: u64) {
 }
 
 pub fn corr_c08(seed: u64, n: u64) {
+    std::panic::set_hook(Box::new(|_| {}));
     let mut rng = Rng(seed ^ 0xC08);
     let mut stats = Stats::new();
     let mut lens: Vec<usize> = vec![0, 1, 2, 3, 5, 50, 198, 199, 200, 201, 202, 250, 398, 399, 400, 401, 402, 597, 598, 599, 600, 601, 797, 1000, 1999, 2000];
@@ -108,7 +109,18 @@ pub fn corr_c08(seed: u64, n: u64) {
         if input.pts.len() > 450 && it % 8 != 0 { input.pts.truncate(3 + (it as usize * 7) % 60); }
         let max_error = match it % 5 { 0 => 0.0, 1 => -1.0, _ => if rng2.b() { rng2.r(0.05, 2.0) } else { 10f64.powf(rng2.r(-3.0, 0.3)) } };
         let pts = input.pts.clone();
-        let fit = fit_curve::<Curve<Coord2>>(&pts, max_error);
+        let pts2 = pts.clone();
+        let fit = match std::panic::catch_unwind(move || fit_curve::<Curve<Coord2>>(&pts2, max_error)) {
+            Ok(f) => f,
+            Err(_) => {
+                // the implementation panicked: reported as a difference by the driver (the model never panics), with the input as replay
+                let mut line = format!("C08 fit R {} #{}", hx(max_error), pts.len());
+                for p in &pts { line += &format!(" {} {}", hx(p.0), hx(p.1)); }
+                println!("{} | #2 #0", line);
+                stats.count("fit.implementation_panicked");
+                continue;
+            }
+        };
         let mut line = format!("C08 fit R {} #{}", hx(max_error), pts.len());
         for p in &pts { line += &format!(" {} {}", hx(p.0), hx(p.1)); }
         match &fit {
@@ -132,7 +144,11 @@ pub fn corr_c08(seed: u64, n: u64) {
         let st = Coord2(rng2.r(-2.0, 2.0), rng2.r(-2.0, 2.0));
         let et = if it % 4 == 0 { Coord2(0.0, 0.0) } else { Coord2(rng2.r(-2.0, 2.0), rng2.r(-2.0, 2.0)) };
         let max_error = 10f64.powf(rng2.r(-2.0, 0.3));
-        let cs = fit_curve_cubic::<Curve<Coord2>>(&pts, &st, &et, max_error);
+        let pts2 = pts.clone();
+        let cs = match std::panic::catch_unwind(move || fit_curve_cubic::<Curve<Coord2>>(&pts2, &st, &et, max_error)) {
+            Ok(c) => c,
+            Err(_) => { stats.count("cubic.implementation_panicked"); println!("C08 cubic R {} {} {} {} {} #{} {} | #99999", hx(max_error), hx(st.0), hx(st.1), hx(et.0), hx(et.1), pts.len(), pts.iter().map(|p| format!("{} {}", hx(p.0), hx(p.1))).collect::<Vec<_>>().join(" ")); continue; }
+        };
         let mut line = format!("C08 cubic R {} {} {} {} {} #{}", hx(max_error), hx(st.0), hx(st.1), hx(et.0), hx(et.1), pts.len());
         for p in &pts { line += &format!(" {} {}", hx(p.0), hx(p.1)); }
         line += &format!(" | #{}", cs.len());
